@@ -197,6 +197,50 @@ def check_case(rep, drv, case, rng=None):
                 rep.fail(sig, 'CER canonical form: ' + '; '.join(errs[:3]), dict(case.replay, kind='cerform', bytes=ie[1].hex()))
 
 
+def real_bases(rep, drv, tier):
+    """BER may write a binary REAL in base 2, 8 or 16 (X.690 8.5.7); pyasn1 picks the base from `binEncBase` on the value
+    or on the encoder. Whatever the base, the octets must denote the number: read by the model's X.690 reader (an exact
+    rational comparison) and by the library's own decoder."""
+    from fractions import Fraction
+    from pyasn1.type import univ
+    from pyasn1.codec.ber import encoder as ber_enc, decoder as ber_dec
+    mants = [1, -1, 3, -5, 12, 255, 256, -4096, 2 ** 53 + 1]
+    exps = list(range(-20, 21)) + [-100, 100, -1023, 1023] if tier == 'thorough' else list(range(-13, 14)) + [-100, 100]
+    t = ('real',)
+    for base in (2, 8, 16):
+        for m in mants:
+            for e in exps:
+                r = univ.Real((m, 2, e))
+                r.binEncBase = base
+                rep.evaluations += 1
+                rep.count('real-base-%d' % base)
+                replay = {'kind': 'real-base', 'mantissa': m, 'exponent': e, 'binEncBase': base}
+                want = Fraction(m) * Fraction(2) ** e
+                try:
+                    data = bytes(ber_enc.encode(r))
+                except Exception as ex:  # noqa
+                    rep.fail('real-base-encode-' + codec.classify(ex), 'encoding %d*2^%d in base %d: %r' % (m, e, base, ex), replay)
+                    continue
+                replay['bytes'] = data.hex()
+                md = codec.model_decode(drv, 'ber', t, data)
+                rep.corr_checked += 1
+                got = None
+                if md[0] == 'ok' and md[1][0] == 'real' and len(md[1]) == 4:
+                    got = Fraction(md[1][1]) * Fraction(md[1][2]) ** md[1][3]
+                if got != want or (md[0] == 'ok' and md[2] != b''):
+                    rep.fail('real-base-denotes-other-number', 'base-%d encoding %s of %d*2^%d is read by the X.690 reader as %s'
+                             % (base, data.hex(), m, e, got if got is not None else md[:2]), replay)
+                    continue
+                try:
+                    back, rest = ber_dec.decode(data, asn1Spec=univ.Real())
+                    bm, bb, be = tuple(back)
+                    ok = rest == b'' and Fraction(bm) * Fraction(int(bb)) ** int(be) == want
+                except Exception as ex:  # noqa
+                    ok = False
+                if not ok:
+                    rep.fail('real-base-roundtrip', 'base-%d encoding %s of %d*2^%d does not decode to it' % (base, data.hex(), m, e), replay)
+
+
 def run(rep, tier, seed):
     common.prove(rep)
     rng = common.rng_for(seed, 'C03')
@@ -208,6 +252,7 @@ def run(rep, tier, seed):
     rep.assumptions = ['the X.690 transcription in lean/Asn1/X690.lean is correct (short, readable)', 'text codecs trusted',
                        'decimal REAL excluded']
     from harness import sexp_types
+    real_bases(rep, drv, tier)
     for ts, vs in CORPUS:
         t = sexp_types.ty_of_sexp(gen.parse_sexps(ts)[0])
         v = gen.val_of_sexp(gen.parse_sexps(vs)[0])
